@@ -236,9 +236,59 @@ def _check(hyps, neg, timeout_ms):
     return s, s.check()
 
 
+def _free_consts(exprs, limit=600):
+    """0-ary uninterpreted Real/Int constants of the formulas, or None if there are quantifiers / function applications / too many"""
+    out, seen, todo = {}, set(), list(exprs)
+    while todo:
+        x = todo.pop()
+        i = x.get_id()
+        if i in seen:
+            continue
+        seen.add(i)
+        if z3.is_quantifier(x):
+            return None
+        if z3.is_app(x) and x.decl().kind() == z3.Z3_OP_UNINTERPRETED:
+            if x.num_args() > 0:
+                return None
+            if z3.is_real(x) or z3.is_int(x):
+                out[x.decl().name()] = x
+                if len(out) > limit:
+                    return None
+        todo += x.children()
+    return out
+
+
+def _random_point(hyps, neg, tries=3):
+    """cheap refutation of (mostly polynomial) identities: fix every numeric constant to a random rational and let z3
+    evaluate; a satisfiable instance is a genuine counter-model (hypotheses included), anything else says nothing"""
+    import random
+    cs = _free_consts(list(hyps) + [neg])
+    if not cs:
+        return None
+    for t in range(tries):
+        rnd = random.Random(977 + t)
+        s = z3.Solver()
+        s.set("timeout", 3000)
+        for nm in sorted(cs):
+            c = cs[nm]
+            if z3.is_int(c):
+                s.add(c == rnd.randint(-2, 7))
+            else:
+                s.add(c == z3.RealVal(rnd.randint(-12, 12)) / z3.RealVal(rnd.choice([1, 2, 3, 5, 7])))
+        s.add(*hyps)
+        s.add(neg)
+        if s.check() == z3.sat:
+            return s
+    return None
+
+
 def _staged(hyps, goal, timeout_ms, use_cvc5):
     """-> (verdict 'unsat'|'sat'|'unknown', backend, stage, solver-or-None)"""
     neg = z3.Not(goal)
+    if len(hyps) <= 40:
+        rp = _random_point(hyps, neg)
+        if rp is not None:
+            return ("sat", "z3(random point)", "all", rp)
     stages = [("min", _slice_min(hyps, goal)), ("cone", _slice_cone(hyps, goal)), ("all", hyps)]
     uniq = []
     for nm, hy in stages:
